@@ -12,6 +12,7 @@ edit yields a tree that re-parses to itself.
 import StyluaModel.Generated.OpTables
 import StyluaModel.Lemmas.Paren
 import StyluaModel.Lemmas.StrLit
+import StyluaModel.Lemmas.ParserMono
 
 namespace StyluaModel.C01
 open StyluaModel StyluaModel.ParenRule StyluaModel.Prec StyluaModel.ParenLemmas StyluaModel.Generated Expr
@@ -51,6 +52,31 @@ theorem C01_expr_reparses (o : Oracle) (ctx : Ctx) (p : Pos) (e : Expr) (hd : dr
   ⟨⟨(fmtS_good e ctx p hd hf hok).1, (fmtS_good e ctx p hd hf hok).2.1⟩,
    ⟨((hang_good e).1 o ctx p hd hf hok).1, ((hang_good e).1 o ctx p hd hf hok).2.1⟩⟩
 
+/-- **the parser reads the formatted expression back as exactly the formatted tree**: `faithful`
+is not an assumption about parsing but a theorem about the token-level mirror of full_moon's
+precedence-climbing parser (`Spec/Parser.lean`, compared with full_moon on every run): for every
+input tree, position, layout oracle and both paths, parsing the printed output - with any
+sufficiently large fuel - yields the output tree itself, all tokens consumed. -/
+theorem C01_expr_parses_back (o : Oracle) (ctx : Ctx) (p : Pos) (e : Expr) (hd : dropOK ctx p = true)
+    (hf : faithful e = true) (hok : okAt p e = true) :
+    (∃ n, ∀ f, n ≤ f → Parser.parse f (Parser.print (fmtS repaired ctx e)) = some (fmtS repaired ctx e)) ∧
+    (∃ n, ∀ f, n ≤ f → Parser.parse f (Parser.print (fmtH repaired o ctx e)) = some (fmtH repaired o ctx e)) :=
+  ⟨ParserLemmas.parse_print _ (fmtS_good e ctx p hd hf hok).1,
+   ParserLemmas.parse_print _ ((hang_good e).1 o ctx p hd hf hok).1⟩
+
+/-- the hypothesis on the input is the same statement about the input: a tree that the parser
+produced from its own printed form -/
+theorem C01_faithful_parses (e : Expr) (hf : faithful e = true) :
+    ∃ n, ∀ f, n ≤ f → Parser.parse f (Parser.print e) = some e :=
+  ParserLemmas.parse_print e hf
+
+/-- … and the executable parser (the one `modeld` runs against full_moon) never answers anything
+else: with whatever fuel it returns a tree for the printed output, it is the output tree -/
+theorem C01_parser_answers_right (ctx : Ctx) (p : Pos) (e e' : Expr) (hd : dropOK ctx p = true)
+    (hf : faithful e = true) (hok : okAt p e = true) (f : Nat)
+    (h : Parser.parse f (Parser.print (fmtS repaired ctx e)) = some e') : e' = fmtS repaired ctx e :=
+  ParserLemmas.parse_print_any_fuel _ _ (fmtS_good e ctx p hd hf hok).1 f h
+
 /-- **string tokens stay one token**: the rewritten body is accepted between the chosen
 quotes by the tokenizer rule, in every dialect mode -/
 theorem C01_string_token (style : StrLit.QuoteStyle) (q : Char) (b : List Char) (v52 zf : Bool)
@@ -61,5 +87,10 @@ theorem C01_string_token (style : StrLit.QuoteStyle) (q : Char) (b : List Char) 
 /-! ## non-vacuity -/
 example : (" ^ ".toList, " .. ".toList) = ([' ', '^', ' '], [' ', '.', '.', ' ']) := by decide
 example : faithful (un .minus (paren (un .minus (atom 0)))) = true := by decide
+example : Parser.parse 20 (Parser.print (bin .plus (atom 0) (bin .star (atom 1) (atom 2)))) =
+    some (bin .plus (atom 0) (bin .star (atom 1) (atom 2))) := by decide
+/-- an unfaithful tree is *not* read back as itself: `(a + b) * c` printed without its parentheses -/
+example : Parser.parse 20 (Parser.print (bin .star (bin .plus (atom 0) (atom 1)) (atom 2))) =
+    some (bin .plus (atom 0) (bin .star (atom 1) (atom 2))) := by decide
 
 end StyluaModel.C01
